@@ -941,6 +941,8 @@ class Executor:
                              "min_stop": min([p[1] for p in fr["pops"] if isinstance(p[1], int)], default=None)}
                             for fr in MON.files]
         res["max_ratio"] = round(CLOCK.max_ratio, 3)
+        res["ticks"] = CLOCK.ticks
+        res["lex_ticks"] = CLOCK.lex_ticks
         res["opens"] = sum(1 for e in self.log if e[0] == "open")
         self.ev("cli", [self.relpath(a) for a in op["argv"]], res["end"], res.get("exit"),
                 sha(res["stdout"]), sha(res["stderr"]))
